@@ -21,9 +21,24 @@ RULE = ("all 72 combinations of (window, resample none/step/array, taper, filter
         "non-trivial = any option set or threaded run; distinct by (series kind, options, method)")
 
 
+def freeze(v):
+    """hashable, comparable image of an attribute value (arrays by content)"""
+    if isinstance(v, np.ndarray):
+        return ("nd", v.dtype.str, v.shape, v.tobytes() if v.dtype != object else repr(v.tolist()))
+    if isinstance(v, (list, tuple)):
+        return (type(v).__name__,) + tuple(freeze(x) for x in v)
+    if isinstance(v, dict):
+        return ("dict",) + tuple((repr(k), freeze(x)) for k, x in v.items())
+    try:
+        hash(v)
+        return v
+    except TypeError:
+        return repr(v)
+
+
 def snap(ts):
     return dict(t=ts.t.tobytes(), x=ts.x.tobytes(), tid=id(ts._t), xid=id(ts.x),
-                attrs={k: (v if not isinstance(v, np.ndarray) else v.tobytes()) for k, v in vars(ts).items() if k not in ("_t", "x")})
+                attrs={k: freeze(v) for k, v in vars(ts).items() if k not in ("_t", "x")})
 
 
 def arrays_in(res):
@@ -170,6 +185,10 @@ def run(chk):
                 chk.fail("a copy equals its source in every attribute and array (absolute time)", inp, "equal dtg_time", "different")
             if np.shares_memory(c.t, ts.t) or np.shares_memory(c.x, ts.x):
                 chk.fail("a copy shares no mutable state with its source", inp, "independent arrays", "shared memory")
+            shared = [k for k, v in vars(c).items() if isinstance(v, (np.ndarray, list, dict)) and v is vars(ts).get(k)]
+            if shared:
+                chk.fail("a copy shares no mutable state with its source (mutable attribute objects are not shared)", inp,
+                         "distinct objects", shared)
             c.x[0] += 1.0
             c._t[0] -= 1.0
             c.kind = "changed"
